@@ -6,21 +6,24 @@
 EXTENDS Nilsimsa, Json, IOUtils, TLC
 KAT == ndJsonDeserialize(IOEnv.KAT_FILE)
 VARIABLES k, verdict
-Init == k \in 1..Len(KAT) /\ verdict = "pending"
-Next == /\ verdict = "pending" /\ UNCHANGED k
-        /\ LET e == KAT[k]
+\* NB: everything is computed inside one expression-level LET: TLC does not cache the definitions of a LET
+\* that encloses primed conjuncts (action level), each use would recompute the digests.
+Run(kk) == LET e == KAT[kk]
                T == NilTran(e.target)
                s1 == NilUpdateT(T, NilInit, e.m)
                d1 == NilDigest(s1)
                d2 == NilsimsaT(e.target, e.m2)
                h  == Len(e.m) \div 3
                sp == NilUpdateT(T, NilUpdateT(T, NilInit, SubSeq(e.m, 1, h)), SubSeq(e.m, h+1, Len(e.m)))
+               dist == NilDistance(d1, d2)
                ok == /\ d1 = e.d /\ d2 = e.d2
-                     /\ NilDistance(d1, d2) = e.dist /\ NilScore(d1, d2) = e.score
+                     /\ dist = e.dist /\ NilScore(d1, d2) = e.score
                      /\ NilPopCount(d1) = e.hw
                      /\ sp = s1
-                     /\ s1.count = Len(e.m) /\ Len(s1.acc) = 256
+                     /\ s1.count = Len(e.m) /\ Len(s1.acc) = 256 /\ Len(s1.window) = (IF Len(e.m) < 4 THEN Len(e.m) ELSE 4)
                      /\ (e.target = 53 => d1 = Nilsimsa(e.m))
-           IN /\ verdict' = IF ok THEN "ok" ELSE "bad"
-              /\ PrintT(ToJson([k |-> k, verdict |-> verdict', got |-> d1, got2 |-> d2, dist |-> NilDistance(d1, d2)]))
+               v == IF ok THEN "ok" ELSE "bad"
+           IN IF PrintT(ToJson([k |-> kk, verdict |-> v, got |-> d1, got2 |-> d2, dist |-> dist])) THEN v ELSE v
+Init == k \in 1..Len(KAT) /\ verdict = "pending"
+Next == verdict = "pending" /\ UNCHANGED k /\ verdict' = Run(k)
 ====
